@@ -209,6 +209,15 @@ def _field_size(field, type_definition):
     return size * type_definition.addressable_unit
 
 
+def _bound_value(bound):
+    """Converts an IntegerType bound, which may be infinite, to a number."""
+    if bound == "infinity":
+        return float("inf")
+    if bound == "-infinity":
+        return float("-inf")
+    return int(bound)
+
+
 def _check_type_requirements_for_field(
     type_ir, type_definition, field, ir, source_file_name, errors
 ):
@@ -217,12 +226,14 @@ def _check_type_requirements_for_field(
         return
 
     if field.type.has_field("atomic_type"):
+        # The size may be unbounded ("-infinity"/"infinity") if it depends on a
+        # field whose own size is not yet known to be valid.
         field_min_size = (
-            int(field.location.size.type.integer.minimum_value)
+            _bound_value(field.location.size.type.integer.minimum_value)
             * type_definition.addressable_unit
         )
         field_max_size = (
-            int(field.location.size.type.integer.maximum_value)
+            _bound_value(field.location.size.type.integer.maximum_value)
             * type_definition.addressable_unit
         )
         field_is_atomic = True
